@@ -468,6 +468,17 @@ func unknownInsertion(c *explore.Ctx) {
 		if ds := pgen.Diffs(v, got.Elem()); len(ds) > 0 {
 			c.Fail("unknown-insertion:value-changed:"+proto3(p)+":"+kind, "unknown field %s inserted: Unmarshal(% x) differs at %s: %s (%s)", what, trunc(in), ds[0].Path, ds[0].Why, desc)
 		}
+		// the same through a Decoder on another kind of reader (skipping discards through the reader's own means)
+		rk := readerKinds[1+int(n)%(len(readerKinds)-1)]
+		out := reflect.New(s.Type)
+		var derr error
+		if pv, ps := explore.Catch(func() { derr = thrift.NewDecoder(impl(p).NewReader(rk.mk(in))).Decode(out.Interface()) }); pv != nil {
+			c.Fail("decode:panic:unknown-insertion:"+ps+":"+explore.PanicClass(pv), "Decoder over %s on % x (%s) panicked: %v", rk.name, trunc(in), p, pv)
+		} else if derr != nil {
+			c.Fail("unknown-insertion:rejected:"+proto3(p)+":"+kind+":"+rk.name, "unknown field %s inserted: Decoder over %s fails on % x: %v (%s)", what, rk.name, trunc(in), derr, desc)
+		} else if ds := pgen.Diffs(v, out.Elem()); len(ds) > 0 {
+			c.Fail("unknown-insertion:value-changed:"+proto3(p)+":"+kind+":"+rk.name, "unknown field %s inserted: Decoder over %s on % x differs at %s: %s (%s)", what, rk.name, trunc(in), ds[0].Path, ds[0].Why, desc)
+		}
 	})
 	c.Inner(n)
 	c.NontrivialStr("ins", s.String(), tgen.Describe(v), p.String())
@@ -1225,7 +1236,7 @@ func Spec() *explore.Spec {
 			{Name: "reader-bytes", ShardDepth: 4, Body: readerBytes, Doc: "every Reader method of the 3 protocols over 5 kinds of io.Reader (bytes.Reader, bytes.Buffer, bufio.Reader, one-byte reads, data delivered together with EOF) on all byte strings <=2 over all 256 values and <=5 (6; <=3 (4) for the kinds other than bytes.Reader) over a 16-byte class alphabet: no panic, bounded allocation, io.EOF exactly for empty input, no value out of fewer bytes than the value takes, and no proper prefix of an accepted input yields another value"},
 			{Name: "toplevel-truncations", ShardDepth: 2, Body: toplevelTruncations, Doc: "31 values that are not structs (every scalar kind, strings, binaries, lists, lists of lists, maps, sets; one struct as control) x 3 protocols x {Unmarshal, Decoder over 5 kinds of io.Reader}: the complete encoding decodes to the value, every proper prefix fails with an unexpected-EOF class error (io.EOF for the empty one), Unmarshal reports a trailing byte"},
 			{Name: "truncations", ShardDepth: 2, Body: truncations, Bound: func(string) int { return 1 }, Doc: "valid encodings (struct types of 1-2 fields x id layouts x values x 3 protocols): every prefix must fail with an unexpected-EOF class error (io.EOF for the empty prefix), a trailing byte must be reported, every (position x 256) corruption decodes without panic and within the allocation budget (also in strict mode)"},
-			{Name: "unknown-insertion", ShardDepth: 2, Body: unknownInsertion, Bound: func(string) int { return 1 }, Doc: "one unknown field (ids below/in a gap/above/64+ above the declared ids, 32767) of every thrift type with nested values (20 values, depth 2) inserted at every field boundary of the top-level and nested structs: decoded value unchanged"},
+			{Name: "unknown-insertion", ShardDepth: 2, Body: unknownInsertion, Bound: func(string) int { return 1 }, Doc: "one unknown field (ids below/in a gap/above/64+ above the declared ids, 32767) of every thrift type with nested values (20 values, depth 2) inserted at every field boundary of the top-level and nested structs: decoded value unchanged, through Unmarshal and through a Decoder over one of 4 other kinds of io.Reader (bytes.Buffer, 16-byte bufio.Reader, one-byte reads, data delivered with EOF) in rotation"},
 			{Name: "required-and-strict", ShardDepth: 2, Body: requiredAndStrict, Bound: func(string) int { return 1 }, Doc: "each required field removed -> MissingField naming it; each field sent with each of the other 10 wire types -> TypeMismatch in strict mode, skipped without disturbing the other fields otherwise"},
 			{Name: "depth-ladder", ShardDepth: 3, HangSeconds: 300, MaxWorkers: 8, FatalPerCase: true, Body: depthLadder, Doc: "values nested 100 ... 4,000,000 deep by the sender in a field the target skips (lists, structs, maps in an unknown field; sets in a field of another declared type) x 3 protocols, cut off inside the innermost value: an error, no panic, no stack overflow"},
 			{Name: "depth-ladder-typed", ShardDepth: 3, HangSeconds: 300, MaxWorkers: 8, Body: depthLadderTyped, FatalKey: func(ch []int) string {
